@@ -52,6 +52,24 @@ BIN_AST = {"Add": "+", "Sub": "-", "Mult": "*", "Div": "/", "FloorDiv": "//", "M
            "RShift": ">>", "BitOr": "|", "BitXor": "^", "BitAnd": "&", "MatMult": "@"}
 
 
+class Batch:
+    """collects Gallina expressions from several correspondences and evaluates them in ONE coq_eval"""
+
+    def __init__(self):
+        self.exprs, self.res = [], None
+
+    def add(self, exprs):
+        start = len(self.exprs)
+        self.exprs.extend(exprs)
+        return (start, len(self.exprs))
+
+    def run(self):
+        self.res = vlib.coq_eval(IMPORTS, "", self.exprs, tag="c03", shard=500)
+
+    def get(self, span):
+        return self.res[span[0]:span[1]]
+
+
 # ------------------------------------------------------------------ AST canonicalisation
 
 def canon_expr(node):
@@ -91,7 +109,7 @@ def hy_compile_one(hy, src):
     return ("ok", tree.body[0])
 
 
-def ast_correspondence(chk, hy, max_n):
+def ast_correspondence(chk, hy, max_n, batch):
     exprs, keys = [], []
     for name in OPS:
         for n in range(0, max_n + 1):
@@ -101,8 +119,9 @@ def ast_correspondence(chk, hy, max_n):
         for n in range(0, max_n):
             exprs.append("(@compile_aug nat %s 100 (map PLeaf (seq 0 %d)))" % (oc.coq_string(name + "="), n))
             keys.append(("aug", name + "=", n))
-    res = vlib.coq_eval(IMPORTS, "", exprs, tag="c03ast")
-    for (kind, name, n), r in zip(keys, res):
+    span = batch.add(exprs)
+    yield
+    for (kind, name, n), r in zip(keys, batch.get(span)):
         model = oc.coq_parse(r)
         if kind == "op":
             src = "(%s %s)" % (name, " ".join("a%d" % i for i in range(n)))
@@ -188,11 +207,10 @@ def source_rows(raw):
             "nary": ("a1 %s a2 %s … %s an" % (p, p, p)) if raw["nary"] else None, "agg": raw["agg"]}
 
 
-def doc_correspondence(chk, hy, tables, max_n):
+def doc_correspondence(chk, hy, tables, max_n, batch, docs):
     """(1) the translator's reading of each defop documentation list = the runtime docstring;
        (2) the model's doc_expansion = ast.parse of the documented Python text (Python's grammar)"""
     raws = {d[0]: d[5] for d in tables["defs"]}
-    docs = {}
     for name in OPS:
         src_rows = source_rows(raws[name])
         rt = runtime_doc(hy, name)
@@ -209,8 +227,9 @@ def doc_correspondence(chk, hy, tables, max_n):
         for n in range(0, max_n + 1):
             exprs.append("(@doc_expansion nat %s (map PLeaf (seq 0 %d)))" % (oc.coq_string(name), n))
             keys.append((name, n))
-    res = vlib.coq_eval(IMPORTS, "", exprs, tag="c03doc")
-    for (name, n), r in zip(keys, res):
+    span = batch.add(exprs)
+    yield
+    for (name, n), r in zip(keys, batch.get(span)):
         model = oc.coq_parse(r)
         py = doc_python(docs[name], n)
         if py is None:
@@ -224,7 +243,6 @@ def doc_correspondence(chk, hy, tables, max_n):
         if model != impl:
             chk.disagree("Ops.Operators.doc_expansion vs ast.parse(documented row)", "%s/%d: %r" % (name, n, py),
                          repr(model), repr(impl))
-    return docs
 
 
 # ------------------------------------------------------------------ symbolic operand objects
@@ -393,7 +411,7 @@ class Compiled:
         return self.cache[key]
 
 
-def sym_runs(chk, hy, comp, docs, max_n, per):
+def sym_runs(chk, hy, comp, docs, max_n, per, batch):
     """symbolic values: model = implementation (macro and function), and the oracle macro = function = documented"""
     import hy.pyops
     rng = chk.rng
@@ -423,7 +441,9 @@ def sym_runs(chk, hy, comp, docs, max_n, per):
         v = oc.coq_list([leaf_coq(t) for t in leaves])
         for fn in ("sym_macro", "sym_call", "sym_doc"):
             exprs.append("(%s %s %s %s %s)" % (fn, b, f, oc.coq_string(name), v))
-    res = vlib.coq_eval(IMPORTS, "", exprs, tag="c03sym", shard=600)
+    span = batch.add(exprs)
+    yield
+    res = batch.get(span)
     for idx, (name, n, leaves, bad, falsy) in enumerate(cases):
         m_macro, m_call, m_doc = (oc.coq_parse(res[3 * idx + j]) for j in range(3))
         cfg = Cfg(bad, falsy)
@@ -462,10 +482,17 @@ def sym_runs(chk, hy, comp, docs, max_n, per):
         if i_doc != "Stuck" and i_macro != i_doc:
             chk.fail("macro-vs-doc", desc, repr(i_macro), repr(i_doc), "symbolic operands, see props/c03.py:Sym")
         if i_macro != i_call:
-            pairs_exc = None
-            if name in COMPARE and n >= 3 and i_macro[0] == "Val" and i_call[0] == "Exn" and i_call[1] != 999:
-                desc = dict(desc, **{"class": "comparison-function-evaluates-all-pairs",
-                                     "macro": repr(i_macro), "function": repr(i_call)})
+            if name in COMPARE and n >= 3 and i_macro[0] == "Val" and i_call[0] == "Exn" and i_call[1] != 999 \
+                    and i_macro == i_doc:
+                # the exception is that of a LATER pair than the one whose falsy result the chain returned
+                pairs = candidate_terms(name, leaves)
+                exc_term = bad[i_call[1]] if i_call[1] < len(bad) else None
+                j = pairs.index(exc_term) if exc_term in pairs else None
+                earlier_falsy = j is not None and any(
+                    (pairs[k] in falsy) != (name == "not-in") and pairs[k] not in bad for k in range(j))
+                if earlier_falsy:
+                    desc = dict(desc, **{"class": "comparison-function-evaluates-all-pairs",
+                                         "macro": repr(i_macro), "function": repr(i_call)})
             chk.fail("macro-vs-pyops", desc, repr(i_call), repr(i_macro), "symbolic operands, see props/c03.py:Sym")
 
 
@@ -675,7 +702,7 @@ def shadow_runs(chk, hy, comp, max_n, per):
                              "macro call with #* vs hy.pyops.%s(*flattened)" % hy.mangle(name))
 
 
-def shadow_model(chk, hy, max_n):
+def shadow_model(chk, hy, max_n, batch):
     """model's wrapper vs hy.macroexpand_1 for every operator and every position of the unpacking"""
     exprs, keys = [], []
     for name in OPS:
@@ -685,7 +712,8 @@ def shadow_model(chk, hy, max_n):
                          for i in range(n)]
                 exprs.append("(expand_macro %s %s)" % (oc.coq_string(name), oc.coq_list(items)))
                 keys.append((name, n, pos))
-    res = vlib.coq_eval(IMPORTS, "", exprs, tag="c03sh")
+    span = batch.add(exprs)
+    yield
 
     def form_of(x):
         from hy.models import Expression, Symbol
@@ -696,7 +724,7 @@ def shadow_model(chk, hy, max_n):
             m = re.fullmatch(r"a(\d+)", s)
             return ("FOperand", int(m.group(1))) if m else ("FSym", ("str", s))
         raise ValueError(repr(x))
-    for (name, n, pos), r in zip(keys, res):
+    for (name, n, pos), r in zip(keys, batch.get(span)):
         model = oc.coq_parse(r)
         args = " ".join(("#* a%d" % i) if i == pos else "a%d" % i for i in range(n))
         exp = hy.macroexpand_1(hy.read("(%s %s)" % (name, args)))
@@ -763,24 +791,26 @@ def run(chk):
         tables = None
         chk.notes.append("translator failed (%s); model correspondences skipped, oracles still run" % e)
     model_ok = proved or all(o[1] for o in chk.obligations if o[0].startswith("coq cone"))
-    docs = None
+    docs = {}
     if tables is not None and model_ok:
+        batch = Batch()
+        phases = [ast_correspondence(chk, hy, max_n, batch),
+                  doc_correspondence(chk, hy, tables, max_n, batch, docs),
+                  shadow_model(chk, hy, 5, batch),
+                  sym_runs(chk, hy, comp, docs, max_n, 14 if thorough else 5, batch)]
         try:
-            ast_correspondence(chk, hy, max_n)
-            docs = doc_correspondence(chk, hy, tables, max_n)
-            shadow_model(chk, hy, 5)
+            for ph in phases:
+                next(ph)                     # collect the Gallina expressions
+            batch.run()
+            for ph in phases:
+                for _ in ph:                 # judge
+                    pass
         except RuntimeError as e:
             chk.obligation("model evaluates (coq_eval)", False, str(e)[-1500:])
-    if docs is None:
-        docs = {}
-        for name in OPS:
+    for name in OPS:
+        if name not in docs:
             rt = runtime_doc(hy, name)
             docs[name] = rt or {"nullary": None, "unary": "not x", "binary": None, "nary": None, "agg": None}
-    if tables is not None and model_ok:
-        try:
-            sym_runs(chk, hy, comp, docs, max_n, 14 if thorough else 5)
-        except RuntimeError as e:
-            chk.obligation("model evaluates (coq_eval, symbolic)", False, str(e)[-1500:])
     real_runs(chk, hy, comp, docs, max_n, 400 if thorough else 36)
     aug_runs(chk, hy, comp, docs, max_n, 120 if thorough else 14)
     shadow_runs(chk, hy, comp, 6 if thorough else 5, 12 if thorough else 3)
